@@ -9,8 +9,9 @@ cd /verif
 for id in "$@"; do
   s=$(date +%s)
   out=$(./check "$id" quick 2>&1 | grep -v WARNING)
-  rc=$?
-  echo "== $id: $(echo "$out" | grep -c '^VIOLATION') violation line(s), $(( $(date +%s) - s )) s"
+  nv=$(echo "$out" | grep -c '^VIOLATION')
+  echo "== $id: $nv violation line(s), $(( $(date +%s) - s )) s"
+  if [ "$nv" = 0 ] && echo "$out" | grep -q 'Traceback'; then echo "   THE CHECK ITSELF CRASHED:"; echo "$out" | tail -4; fi
   python3 -c "import json; c=json.load(open('/verif/evidence/$id.json'))['coverage']; print('   failing cases: oracle', c.get('impl_oracle_failures'), 'model', c.get('model_disagreements'), 'of', c.get('evaluations'))"
   echo "$out" | grep '^VIOLATION\|^KNOWN' | cut -c1-200 | head -4
   for f in $(echo "$out" | grep '^VIOLATION' | sed 's/.*replay=\([^ ]*\).*/\1/' | head -2); do grep -h '^# property oracle\|^# corresp\|^# ' "$f" | head -2 | cut -c1-260; done
